@@ -122,6 +122,10 @@ func TestGovcC13Partition(t *testing.T) {
 		{"two circles, relation from the later circle to the earlier one", []string{a, b, c, d}},
 		{"two circles, relation from the earlier circle to the later one", []string{a2, b, c, d2}},
 		{"three-cycle", []string{x, y, z}},
+		{"circle whose member also points at an independent type (after the circle partner)", []string{
+			`type A { name: String b: B @primary p: P @primary }`, b, p}},
+		{"circle whose member also points at an independent type (before the circle partner)", []string{
+			`type A { name: String p: P @primary b: B @primary }`, b, p}},
 		{"two doubly linked pairs, two-sided relation from the earlier pair to the later one", []string{
 			`type K { name: String l1: L @primary @relation(name:"r1") l2: L @relation(name:"r2") m: M @primary @relation(name:"r5") }`,
 			`type L { name: String k1: K @relation(name:"r1") k2: K @primary @relation(name:"r2") }`,
